@@ -108,6 +108,16 @@ func C02(tier rt.Tier) int {
 		})
 	}
 	if !rt.SubRun {
+		reps := 16
+		if tier == rt.Thorough {
+			reps = 48
+		}
+		runLasso(rep, alphabet{name: "lasso-mem", kind: Mem, paths: []string{"aa", "aaab", "ab"}, vals: []string{"x", "y"}, depth: 1, version: 1}, 0, 3, reps, time.Now().Add(per), func(w *World) string {
+			if f := canonicalOracle(w); f != "" {
+				return f
+			}
+			return tab.check(w)
+		})
 		lens := spans(0, 1100, 4080, 4110, 65520, 65550)
 		if tier == rt.Thorough {
 			lens = spans(0, 8300, 16370, 16400, 32750, 32790, 65500, 65600, 1<<20-8, 1<<20+8)
@@ -120,6 +130,7 @@ func C02(tier rt.Tier) int {
 			return tab.check(w)
 		})
 		twoLevelSweep(rep, "canonical-root", Mem, 1, canonicalOracle)
+		prefixSweep(rep, "canonical-root", Mem, 1, canonicalOracle)
 		byteSweep(rep, "canonical-root", []StoreKind{Mem}, 1, canonicalOracle)
 	}
 	rep.Set("distinct_roots", len(tab.m))
@@ -267,6 +278,11 @@ func C14(tier rt.Tier) int {
 		runAlphabet(rep, a, time.Now().Add(per), storeOracle)
 	}
 	if !rt.SubRun {
+		reps := 12
+		if tier == rt.Thorough {
+			reps = 40
+		}
+		runLasso(rep, alphabet{name: "lasso-level-pnodedb", kind: LevelP, paths: []string{"aa", "aaab"}, vals: []string{":"}, flush: true, bump: 400, depth: 1, version: 1}, 0, 3, reps, time.Now().Add(per), storeOracle)
 		lens := spans(0, 300, 1000, 1050, 4090, 4100, 65530, 65540)
 		if tier == rt.Thorough {
 			lens = spans(0, 4200, 65500, 65600, 1<<20-4, 1<<20+4, util.MPTMaxAllowableNodeSize-1, util.MPTMaxAllowableNodeSize)
@@ -274,6 +290,7 @@ func C14(tier rt.Tier) int {
 		sizeSweep(rep, "stored-under-own-hash", lens, []StoreKind{Mem, LevelP}, 3, storeOracle, nil)
 		widthSweep(rep, "stored-under-own-hash", []StoreKind{Mem, PDirect}, 3, storeOracle)
 		twoLevelSweep(rep, "stored-under-own-hash", LevelP, 3, storeOracle)
+		prefixSweep(rep, "stored-under-own-hash", LevelP, 3, storeOracle)
 		byteSweep(rep, "stored-under-own-hash", []StoreKind{Mem, LevelP, PDirect}, 3, storeOracle)
 	}
 	rep.RunVariant()
